@@ -14,6 +14,15 @@ ENUMERATED (deterministic decision "which clock id"): {dynamic PIE, static, stat
 the thorough tier] x 6 entry points x {vDSO path, fallback with the vDSO pointer forced to None}.
 SAMPLED (real time): N readings per cell, each between two clock_gettime system calls.
 
+START-STATE dimension (time namespace): on a machine that was never suspended, in the initial time
+namespace, CLOCK_MONOTONIC, CLOCK_BOOTTIME (and nearly MONOTONIC_RAW / MONOTONIC_COARSE) show the same
+value, so a reader that asks for the wrong one of them is invisible to the sandwich.  Every real-vDSO cell is
+therefore run a second time under `unshare -T --monotonic 3000 --boottime 7000 --fork`: REALTIME, the
+MONOTONIC family and BOOTTIME then differ pairwise by thousands of seconds, for the vDSO as for the system
+call.  Needs root and a kernel with time namespaces; when it is not available the cells are reported as
+not run (note + cap), never as a violation.  The synthetic images decide the same class without a namespace:
+their clock_gettime adds 1000 s x clock id to the answer for every id other than REALTIME and MONOTONIC.
+
 SYNTHETIC-IMAGE dimension (the kernel's own vDSO is ONE image; whether the lookup code calls the address
 the symbol table states depends on where the function sits): the static and static-PIE debug binaries are
 also started through engines/probe-clock/synth/loader.c -- a user-space exec that differs from the kernel's
@@ -64,6 +73,9 @@ N_QUICK = 10_000
 N_THOROUGH = 100_000
 N_SYNTH_QUICK = 2_000
 N_SYNTH_THOROUGH = 20_000
+TIMENS_MONO, TIMENS_BOOT = 3000, 7000
+TIMENS_PREFIX = ["unshare", "-T", "--monotonic", str(TIMENS_MONO), "--boottime", str(TIMENS_BOOT), "--fork"]
+TIMENS_TAG = f"@timens(monotonic+{TIMENS_MONO}s,boottime+{TIMENS_BOOT}s)"
 SYNTH_SRC = os.path.join(PROBE_SRC, "synth")
 SYNTH_DIR = os.path.join(TARGET_ROOT, "synth")
 SYNTH_TEXT_START = 0xFC0          # fakevdso.lds
@@ -285,15 +297,33 @@ def parse_records(out):
     return recs, True
 
 
-def run_probe(cfg, path, n, via=None):
+def timens_available():
+    """None when `unshare -T` gives the offsets asked for, else a reason."""
+    code = "import time;print(time.clock_gettime(1),time.clock_gettime(7))"
+    try:
+        h1, h7 = time.clock_gettime(1), time.clock_gettime(7)
+        p = subprocess.run(TIMENS_PREFIX + [sys.executable, "-c", code], stdout=subprocess.PIPE, stderr=subprocess.PIPE, text=True, timeout=20)
+        if p.returncode != 0:
+            return f"`{' '.join(TIMENS_PREFIX)}` failed (status {p.returncode}): {p.stderr.strip()[:160]}"
+        n1, n7 = (float(x) for x in p.stdout.split())
+    except (OSError, ValueError, subprocess.TimeoutExpired) as e:
+        return f"`{' '.join(TIMENS_PREFIX)}` not usable: {e}"
+    if abs(n1 - h1 - TIMENS_MONO) > 5 or abs(n7 - h7 - TIMENS_BOOT) > 5:
+        return f"time namespace offsets not in effect (monotonic {n1 - h1:+.1f}s, boottime {n7 - h7:+.1f}s)"
+    return None
+
+
+def run_probe(cfg, path, n, via=None, timens=False):
     """One exec of one binary.  `via` = None (kernel exec) or dict(loader=, image=path|"-", name=, slot=, align=)
     (user-space exec through the loader; only the as-started path is run).
     Returns dict(cfg, image, died=None|text, ptr, have_sym, cells=[...])."""
     delta = _vdso_slot_delta(path)
     have = 0 if delta is None else (1 if via is None else 2)
     ctl = b"PCK1" + struct.pack("<IBq", n, have, delta or 0)
-    res = dict(cfg=cfg, image=(via["name"] if via else "kernel-vdso"), via=via, died=None, have_sym=delta is not None, ptr=None, cells=[])
+    res = dict(cfg=cfg, image=(via["name"] if via else "kernel-vdso"), via=via, timens=timens, died=None, have_sym=delta is not None, ptr=None, cells=[])
     argv = [path] if via is None else [via["loader"], path, via["image"]]
+    if timens:
+        argv = TIMENS_PREFIX + argv
     try:
         p = subprocess.run(argv, input=ctl, stdout=subprocess.PIPE, stderr=subprocess.PIPE, timeout=RUN_TIMEOUT,
                            env={"PATH": "/usr/bin:/bin"})
@@ -339,6 +369,8 @@ RULE = ("Clock identity of tiny_std::time in real executables (tiny-std `_start`
         "it is non-trivial when the kernel clock did not itself step back across it. Judged: a reading of one of the four monotonic entry points that is "
         "earlier than the kernel's CLOCK_MONOTONIC reading before it or later than the one after it is a decrease between successive readings of the monotonic clock; "
         "Instant::elapsed() == None for an earlier reading likewise. The SystemTime cells (CLOCK_REALTIME) are recorded, not judged. "
+"START STATES (enumerated): every real-vDSO cell is run in the initial time namespace and again inside a time namespace with CLOCK_MONOTONIC +3000 s and CLOCK_BOOTTIME +7000 s "
+        "(so that no two clock ids coincide); the synthetic images add 1000 s x id for every clock id other than REALTIME/MONOTONIC for the same purpose. "
         "SYNTHETIC IMAGES (enumerated): the static and static-PIE debug binaries are additionally started through a user-space exec loader that changes only AT_SYSINFO_EHDR, "
         "once with the kernel's own image (control) and once with each of 12 vDSO-shaped images: __vdso_clock_gettime (implemented by the real system call) at "
         "0x1000/0x1010/0x1020/0x1030 x .text sh_addralign 16/32/64, all neighbouring 16-byte slots being decoys that answer {0x7dec00kk s, 0 ns}; the as-started path of every entry point "
@@ -346,7 +378,7 @@ RULE = ("Clock identity of tiny_std::time in real executables (tiny-std `_start`
 
 
 def _replay_of(res, ename, pname, n):
-    d = dict(cfg=res["cfg"], image=res["image"], entry=ename, path=pname, n=res.get("n", n))
+    d = dict(cfg=res["cfg"], image=res["image"], timens=bool(res.get("timens")), entry=ename, path=pname, n=res.get("n", n))
     if res.get("via"):
         d.update(slot=res["via"].get("slot"), align=res["via"].get("align"))
     return d
@@ -366,6 +398,8 @@ def report_from(results, n, caps, notes, tier):
     for res in results:
         cfg = res["cfg"]
         via = res.get("via")
+        if res.get("timens"):
+            cfg = cfg + TIMENS_TAG
         if via:
             cfg = f"{cfg}/{res['image']}"
         if res["died"]:
@@ -441,6 +475,16 @@ def c19_vdso(tier="quick", seed=0, out=None, step=None, build=None, bin_path=Non
     if not usable:
         _machinery("the clock probe builds in no configuration: " + "; ".join(caps)[:1500])
     results = [run_probe(cfg, path, n) for cfg, path in usable]
+    # start-state dimension: the same cells inside a time namespace with distinct offsets per clock
+    why = timens_available()
+    if why is None:
+        results += [run_probe(cfg, path, n, timens=True) for cfg, path in usable]
+        notes.append(f"time-namespace start state: every real-vDSO cell also run under `{' '.join(TIMENS_PREFIX)}` (CLOCK_MONOTONIC family +{TIMENS_MONO}s, "
+                     f"CLOCK_BOOTTIME +{TIMENS_BOOT}s, CLOCK_REALTIME untouched)")
+    else:
+        caps.append(f"time-namespace cells NOT RUN ({why}): a reader asking for CLOCK_BOOTTIME / MONOTONIC_RAW instead of CLOCK_MONOTONIC is then "
+                    f"decided by the synthetic images only")
+        notes.append("time-namespace start state not available on this machine: cells not run (not a violation)")
     # synthetic-image dimension
     n_synth = N_SYNTH_THOROUGH if tier == "thorough" else N_SYNTH_QUICK
     t_s = time.time()
@@ -499,9 +543,13 @@ def _replay(d, env):
         else:
             k, a = int(rp["slot"]), int(rp["align"])
             via = dict(loader=loader, image=next(p for kk, aa, p in images if (kk, aa) == (k, a)), name=synth_name(k, a), slot=k, align=a)
-    res = run_probe(cfg, b["path"], int(rp.get("n", N_QUICK)), via)
+    if rp.get("timens"):
+        why = timens_available()
+        if why:
+            _machinery("cannot replay a time-namespace case here: " + why)
+    res = run_probe(cfg, b["path"], int(rp.get("n", N_QUICK)), via, timens=bool(rp.get("timens")))
     rep = report_from([res], int(rp.get("n", N_QUICK)), [], [], "quick")
-    print(f"replay C19 clock identity {cfg} [{res['image']}]: binary {b['path']} (built from {repo}); vDSO pointer at start-up: "
+    print(f"replay C19 clock identity {cfg}{TIMENS_TAG if res['timens'] else ''} [{res['image']}]: binary {b['path']} (built from {repo}); vDSO pointer at start-up: "
           f"{'unknown' if res['ptr'] is None else hex(res['ptr'])}")
     for c in res["cells"]:
         print(f"  {path_name(res, c['path']):17s} {ENTRIES[c['entry']]:26s} n={c['n']} inside={c['inside']} earlier={c['earlier']} later={c['later']} "
